@@ -1,10 +1,10 @@
 SPECIFICATION Spec
 CONSTANTS
   Routers = {"P", "L"}
-  Ops = {"Authorize", "Login", "Callback", "CodeExchange"}
+  Ops = {"Authorize", "Login", "Callback", "CodeExchange", "Refresh"}
   MaxReq = 2
-  MaxCode = 1
-  MaxAT = 2
+  MaxCode = 2
+  MaxAT = 4
   MaxDev = 0
   MaxSteps = 99
   Seeded = FALSE
